@@ -700,7 +700,15 @@ void SoPlexBase<R>::_storeSolutionReal(bool verify)
    else if(_realLP != &_solver)
    {
       assert(_solver.isScaled());
+
+      typename SPxBasisBase<R>::SPxStatus scaledBasisStatus = _solver.getBasisStatus();
+
       _loadRealLP(false);
+
+      // the basis of the scaled problem is also a basis of the original problem; load it into the solver, otherwise
+      // hasBasis() is true while the solver holds no basis for the reloaded LP
+      _solver.setBasisStatus(scaledBasisStatus);
+      _solver.setBasis(_basisStatusRows.get_const_ptr(), _basisStatusCols.get_const_ptr());
    }
 
    // unscale stored solution (removes persistent scaling)
